@@ -431,3 +431,116 @@ Example C16_blank_lines_sample :
   | None => False
   end.
 Proof. vm_compute. repeat split. discriminate. Qed.
+
+Require Import CommentErase CommentInsert.
+
+(* Comment lines.  Two sources, the second obtained from the first by leaving out the flagged lines, which are comments
+   (first non-blank character '#'): if the parser reaches every flagged line in a state that handles #Comment by
+   building it and staying where it is (C16_comment_neutral_states: every state but the start of the document, where
+   a comment may be a language header; the states right after a keyword line, where a comment opens the description;
+   and the doc-string states, where it is content -- so in particular before any step, table row, doc-string delimiter,
+   and before a tag or keyword line that follows a step, a table, a doc string, a description or another comment), then in
+   stop-at-first-error mode the two sources give the same document up to line numbers and up to its list of comments,
+   or the same first error up to its line number, and the same matcher state.  Same chain as for blank lines; the
+   builder's only use of its comment list is to copy it into the finished document (CommentErase.v). *)
+Theorem C16_comment_lines_inserted : forall m b src src' fl, wf_ms m ->
+  List.length fl = List.length (py_lines src') -> flagged_comment fl (py_lines src') -> del fl (py_lines src') = py_lines src ->
+  safe_run (pipeline_params Table.table) neutral_c (scan src') fl (reset_matcher Dialects.dialects m) (reset_builder b) ->
+  psimcm (parse_source true m b src') (parse_source true m b src).
+Proof. exact comment_lines_neutral. Qed.
+Print Assumptions C16_comment_lines_inserted.
+
+Theorem C16_comment_neutral_states :
+  forallb (fun x => neutralcb (s_id x) || tests_language x || comment_opens_description x || no_comment_test x) Table.table = true
+  /\ List.length (filter (fun x => neutralcb (s_id x)) Table.table) = 29%nat.
+Proof. exact comment_neutral_states. Qed.
+Print Assumptions C16_comment_neutral_states.
+
+(* the builder never looks at its comments: an operation on states equal up to line numbers, #Empty tokens and comments
+   gives results that are *)
+Theorem C16_builder_blind_comments :
+  (forall r b b', BRc b b' -> boutc_rel' (builder_start r b) (builder_start r b'))
+  /\ (forall r b b', BRc b b' -> boutc_rel' (builder_end r b) (builder_end r b'))
+  /\ (forall t t' b b', tle t = tle t' -> BRc b b' -> boutc_rel' (builder_build t b) (builder_build t' b')).
+Proof. exact (conj builder_start_crel' (conj builder_end_crel' builder_build_crel')). Qed.
+Print Assumptions C16_builder_blind_comments.
+
+(* ... and for accepted documents the same holds in error-collecting mode; the comments of the longer source that are
+   not in the shorter one are the inserted lines (C03_conservation: the comment list is exactly the comment lines) *)
+Theorem C16_comment_lines_inserted_accepted : forall m b src src' fl d m1 b1 n, wf_ms m ->
+  List.length fl = List.length (py_lines src') -> flagged_comment fl (py_lines src') -> del fl (py_lines src') = py_lines src ->
+  safe_run (pipeline_params Table.table) neutral_c (scan src') fl (reset_matcher Dialects.dialects m) (reset_builder b) ->
+  parse_source false m b src = POk d m1 b1 n ->
+  exists d' b1' n', parse_source false m b src' = POk d' m1 b1' n' /\ de_doc (le_doc d') = de_doc (le_doc d).
+Proof.
+  intros m b src src' fl d m1 b1 n W L F D Sf H. apply source_collect_accepts in H.
+  pose proof (comment_lines_neutral m b src src' fl W L F D Sf) as S. rewrite H in S.
+  destruct (parse_source true m b src') as [d' m1' b1' n'| | | |] eqn:P'; cbn [psimcm] in S; try contradiction.
+  destruct S as (Dd & <-). exists d', b1', n'. split; [apply source_stop_accepts; exact P' | exact Dd].
+Qed.
+Print Assumptions C16_comment_lines_inserted_accepted.
+
+(* non-vacuity: comments inserted before a tag line that follows a step, before a step, inside a table, before a
+   doc-string delimiter, before a scenario line that follows a step, at the end; a comment right after the feature
+   line is not safe (it opens the description), nor one inside a doc string *)
+Definition c16_commented : str := s2l
+"Feature: f
+  Scenario: s
+    Given g
+    # one
+      | a |
+  # two
+      | b |
+    And d
+      # three
+      ```
+      text
+      ```
+    # four
+  @t
+ # five
+  Scenario: t
+    Given h
+# six
+".
+Definition c16_uncommented : str := s2l
+"Feature: f
+  Scenario: s
+    Given g
+      | a |
+      | b |
+    And d
+      ```
+      text
+      ```
+  @t
+  Scenario: t
+    Given h
+".
+Definition c16_commented_flags : list bool :=
+  [false; false; false; true; false; true; false; false; true; false; false; false; true; false; true; false; false; true].
+Example C16_comment_lines_sample :
+  match new_matcher Dialects.dialects (s2l "en") with
+  | Some m =>
+    Nat.eqb (List.length c16_commented_flags) (List.length (py_lines c16_commented)) = true
+    /\ flagged_commentb c16_commented_flags (py_lines c16_commented) = true
+    /\ list_beq str_eqb (del c16_commented_flags (py_lines c16_commented)) (py_lines c16_uncommented) = true
+    /\ safe_runcb (scan c16_commented) c16_commented_flags (reset_matcher Dialects.dialects m) (reset_builder (new_builder 0)) = true
+    /\ match parse_source true m (new_builder 0) c16_commented, parse_source true m (new_builder 0) c16_uncommented with
+       | POk d' _ _ _, POk d _ _ _ => de_doc (le_doc d') = de_doc (le_doc d) /\ List.length (doc_comments d') = 6%nat /\ doc_comments d = []
+       | _, _ => False
+       end
+    /\ safe_runcb (scan (s2l "Feature: f
+  # opens the description
+  Scenario: s
+")) [false; true; false; false] (reset_matcher Dialects.dialects m) (reset_builder (new_builder 0)) = false
+    /\ safe_runcb (scan (s2l "Feature: f
+  Scenario: s
+    Given d
+      ```
+      # content
+      ```
+")) [false; false; false; false; true; false; false] (reset_matcher Dialects.dialects m) (reset_builder (new_builder 0)) = false
+  | None => False
+  end.
+Proof. vm_compute. repeat split. Qed.
